@@ -18,6 +18,15 @@ N = 4
 def gen(rng, tier):
     if rng.chance(0.35):
         g = GC.gen_cfg(rng, max_vars=3, max_prods=6, max_body=3)
+        if rng.chance(0.25) and len(g["vars"]) >= 2 and g["terms"]:
+            # a variable and a terminal with the same value (they remain two different symbols of the grammar);
+            # only grammars in which no two productions differ merely by that kind are used, since a set of
+            # productions cannot hold both
+            v = rng.pick([x for x in g["vars"] if x != g["start"]] or g["vars"])
+            t = rng.pick(g["terms"])
+            blind = lambda p: (p[0] if p[0] != v else t, tuple(x if x != v else t for x in p[1]))
+            if len({blind(p) for p in g["prods"]}) == len(g["prods"]) and v != g["start"]:
+                g["alias"] = {v: t}
         return {"kind": "cfg", "g": g}
     return {"kind": "pda", "p": GP.gen_pda(rng)}
 
@@ -26,6 +35,8 @@ def shrink(case):
     if case["kind"] == "cfg":
         for c in GC.shrink_cfg(case["g"]):
             yield {"kind": "cfg", "g": c}
+        if case["g"].get("alias"):
+            yield {"kind": "cfg", "g": dict(case["g"], alias=None)}
     else:
         for c in GP.shrink_pda(case["p"]):
             yield {"kind": "pda", "p": c}
@@ -61,6 +72,8 @@ def run(case, out):
             got = {tuple(k.split(":", 1)[1] for k in w) for w in rb.words_upto(N)}
             _diff(out, "cfg.to_pda.to_cfg:language", got, want)
         out.probe("cfg_source")
+        if g.get("alias"):
+            out.probe("variable_and_terminal_share_a_value")
         return
     p = case["p"]
     ref = GP.ref_of(p)
